@@ -48,11 +48,11 @@ type replayTemplates struct {
 }
 
 type obsVar struct {
-	name   string      // variable name in the terms
-	param  int         // parameter index (-1: result)
-	result int         // result index (param == -1)
-	off    int64       // byte offset inside the object
-	size   int64       // 1, 2, 4, 8
+	name   string // variable name in the terms
+	param  int    // parameter index (-1: result)
+	result int    // result index (param == -1)
+	off    int64  // byte offset inside the object
+	size   int64  // 1, 2, 4, 8
 	isBool bool
 	direct bool // the parameter / result is the scalar itself
 }
